@@ -4,8 +4,10 @@ stand-in's own worker processes only); the disturbed query may only fail with In
 Scripts must answer like an undisturbed process, dead helpers must be reaped, fds must not grow, and the real helper's
 Listener._inference_states must shrink back after Scripts were dropped (probed through a `eval` request)."""
 import gc
+import inspect
 import io
 import json
+import math
 import os
 import random
 import signal
@@ -19,7 +21,8 @@ SCENARIOS = [('import math\nmath.sq', 'complete', 2, 7), ('import itertools\nite
 PHASES = ['before send', 'after send/before reply', 'truncated reply', 'helper raises']
 WATCHDOG = 90
 PROBE = ("(lambda gc: (gc.collect(), [len(o._inference_states) for o in gc.get_objects() if type(o).__name__ == "
-         "'Listener'][0], len([o for o in gc.get_objects() if type(o).__name__ == 'InferenceState']))[1:])(__import__('gc'))")
+         "'Listener'][0], len([o for o in gc.get_objects() if type(o).__name__ == 'InferenceState']))[1:])"
+         "(__import__('gc'))")
 L_EXC = 'disturbed query failed with something other than InternalError: '
 L_WRONG = 'disturbed query neither failed nor returned the undisturbed answer'
 L_HANG = 'query hangs on a dead helper'
@@ -59,7 +62,7 @@ def proc_state(pid):
 class Faults:
     """counts the requests of CompiledSubprocess._send and kills the helper at an armed (k, phase, cut)"""
     def __init__(self, sub):
-        self.sub, self.count, self.armed, self.fired, self.killed, self.pids = sub, 0, None, False, [], set()
+        self.count, self.armed, self.fired, self.killed, self.pids = 0, None, False, [], set()
         self.after_dump = self.cut = None
         orig_send, orig_dump, orig_load = sub.CompiledSubprocess._send, sub.pickle_dump, sub.pickle_load
         me = self
@@ -70,7 +73,7 @@ class Faults:
                 return orig_send(cs, sid, function, args, kwargs)
             pid = cs._get_process().pid
             me.pids.add(pid)
-            if me.armed is not None and me.armed[0] == k:
+            if me.armed is not None and me.armed[0] == k and proc_state(pid) not in (None, 'Z'):
                 phase, me.cut, me.armed, me.fired = me.armed[1], me.armed[2], None, True
                 me.killed.append(pid)
                 if phase == 0:
@@ -228,14 +231,15 @@ class Worker:
             res, n = self.query(SCENARIOS[si])
             if res != ('ok', base):
                 raise RuntimeError('undisturbed run differs from the undisturbed baseline: %r' % (res,))
+        del self.keep[:]
         return n
 
     def job_faults(self, si, phase, base, seed, tier):
         rng = random.Random(seed * 1000 + si * 10 + phase)
         n = self.warm(si, base)                       # requests of a run on a warm helper; a new helper adds _get_info
-        cuts = [-1, 1, 10 ** 6] if phase == 2 else [-1]        # reply cut at: -1 -> half, 1 -> 1 byte, 10**6 -> len-1
+        cuts = [-1, 1, 10 ** 6, 3, 12] if phase == 2 else [-1]   # reply cut at: -1 -> half, n -> n bytes, 10**6 -> len-1
         for k in range(n):
-            for cut in (cuts if tier == 'thorough' else cuts[k % len(cuts):][:1]):
+            for cut in (cuts if tier == 'thorough' else [cuts[k % min(3, len(cuts))]]):
                 self.sequence(si, [(k, phase, cut)], base)
         reps = [(k, r) for k in range(n + 1) for r in (2, 3)] if tier == 'thorough' else [(0, 2), (0, 3), (1, 2), (n, 3)]
         for k, r in reps:                              # the same point again on the replacement helper(s)
@@ -263,13 +267,7 @@ class Worker:
         desc = '%d crash/recover cycles over all scenarios and phases (seed %d)' % (cycles, seed)
         self.out['evaluations'] += 1
         if after[0] > before[0] or after[1] > before[1]:
-            links = []
-            for fd in os.listdir('/proc/self/fd'):
-                try:
-                    links.append(os.readlink('/proc/self/fd/' + fd))
-                except OSError:
-                    pass
-            self.violation(L_FDS, desc, '(fds, threads) before %r after %r; fds: %r' % (before, after, sorted(links)))
+            self.violation(L_FDS, desc, '(fds, threads) before %r after %r' % (before, after))
         z = [pid for pid in killed if proc_state(pid) == 'Z']
         if z:
             self.violation(L_ZOMBIE, desc, 'zombies: %r' % z)
@@ -285,10 +283,11 @@ class Worker:
             """a Script that made >= 1 helper request ('query'), only a raising one ('raise'), or none ('unused')"""
             s = s or jedi.Script('import math\nmath.sq')
             try:
-                if kind == 'query':
-                    names = [c.name for c in s.complete(2, 7)]
-                    if names != ['sqrt']:                                # math.sqrt exists in real Python
-                        self.violation(L_LIVE, desc, 'completions %r' % names)
+                if kind in ('query', 'again'):    # oracle = real Python; docstrings need the helper-side handles of s
+                    col, names = (7, ['sqrt']) if kind == 'query' else (6, [n for n in dir(math) if n.startswith('s')])
+                    got = [(c.name, c.docstring(raw=True)) for c in s.complete(2, col)]
+                    if got != [(n, inspect.getdoc(getattr(math, n))) for n in sorted(names)]:
+                        self.violation(L_LIVE, desc, 'completions %r' % got)
                 elif kind == 'raise':
                     try:
                         s._inference_state.compiled_subprocess._test_raise_error(ValueError)
@@ -326,7 +325,7 @@ class Worker:
                 del batch
                 check(1 + len([i for i in keep_at if kinds[i % len(kinds)] != 'unused']))
                 for s in [survivor] + keep:                              # the live ones still work (again: math.sqrt)
-                    use('query', s)
+                    use('again', s)
                 s = survivor = keep = None
                 desc += ', then all dropped'
                 check(0)
@@ -395,15 +394,19 @@ def run(repo, seed, tier):
     return {'name': 'C14.helper-crash-points', 'contract': 'C14.crash-contained-and-recovered',
             'evaluations': evaluations, 'distinct_nontrivial': evaluations,
             'rule': '%d query scenarios (complete on math/itertools, infer len, signatures math.pow) x every request index '
-                    'of CompiledSubprocess._send x phase {%s} (truncation at 3 cut points), the same point repeated 2 and 3 '
-                    'times on the replacement helpers (incl. its first _get_info request), seeded mixed sequences of 2-3 '
-                    'faults, 20/60 crash-recover cycles with fd/thread/zombie accounting, and create/drop histories of up '
-                    'to 200 Scripts (querying / raising inside the helper / unused; one by one and all at once between two '
-                    'requests of a survivor) with len(Listener._inference_states) read from the REAL helper through an '
-                    'eval request. Oracle: only InternalError may escape a disturbed query, no hang (watchdog %d s, only '
-                    'counted when blocked on a verifiably dead helper), later Scripts answer like this never-disturbed '
-                    'process, killed pids are not zombies, fds do not grow, state count == live used Scripts.'
+                    'of CompiledSubprocess._send x phase {%s} (reply cut after 1 byte / half / all but 1 byte, rotating; '
+                    'thorough: 5 cuts each), the same point 2 and 3 times in a row on the replacement helpers (incl. their '
+                    'first _get_info request; quick: 4 points, thorough: all), 2/12 seeded mixed sequences of 2-3 faults per '
+                    'scenario x phase, 20/60 crash-recover cycles with fd/thread/zombie accounting while all Scripts stay '
+                    'alive, and create/drop histories of up to 200 Scripts (querying / raising inside the helper / unused; '
+                    'one by one and all at once between two requests of a survivor) with len(Listener._inference_states) '
+                    'and the live InferenceState objects read from the REAL helper through an eval request. Oracle: only '
+                    'InternalError may escape a disturbed query, no hang (watchdog %d s, only counted when blocked on a '
+                    'verifiably dead helper), later Scripts answer like this never-disturbed process, killed pids are not '
+                    'zombies, fds do not grow, helper state count == live used Scripts, live Scripts keep answering like '
+                    'real Python (dir(math), inspect.getdoc).'
                     % (len(SCENARIOS), ', '.join(PHASES), WATCHDOG),
             'worker_wall_s': sorted(r['wall_s'] for r in results)[-4:],
-            'samples': [s for r in results for s in r['samples']][:3], 'violations': violations[:50],
+            'samples': [r['samples'][0] for r in (results[0], results[6], results[-1]) if r['samples']],
+            'violations': violations[:50],
             'violation_counts': counts}
